@@ -141,6 +141,12 @@ def after_scan(ex, idx, op, obs, C, raw, pre_cache, pre_class):
         if missing:
             ex.add(violation("C10", "markers_restored", "after %s the scan left the cache directory without %s"
                              % (pending, missing), idx, pending=pending))
+        elif F is not None:
+            # complete = what a first scan of a clean tree leaves, byte for byte
+            bad = [m for m in MARKERS if m in fmarkers and read_bytes(os.path.join(w.cache_dir, m)) != fmarkers[m]]
+            if bad:
+                ex.add(violation("C10", "markers_valid", "after %s the scan left %s with content differing from a first scan's"
+                                 % (pending, bad), idx, pending=pending))
         if F is not None:
             obs2 = w.scan("%s/again" % nonce, set_policy=ex.set_policy, walk_policy=ex.walk_policy)
             C2 = w.cache_json()
@@ -160,6 +166,20 @@ def after_scan(ex, idx, op, obs, C, raw, pre_cache, pre_class):
     # ---- C11: exactly the qualifying files ------------------------------------
     if wl in ("C11", "C09", "C12"):
         check_c11(ex, idx, op, obs, C)
+
+    # ---- C03: the damaged file is reported, its neighbours are unaffected -----
+    if wl == "C03":
+        files = C["codebase"]["files"]
+        if op.get("baseline"):
+            ex.c03_baseline = json.loads(json.dumps(files))
+        else:
+            t = op.get("target")
+            if t and t not in files:
+                ex.add(violation("C03", "report_has_entry_for_damaged_file", "scan completed but %s is not in the report" % t, idx))
+            for p, e in getattr(ex, "c03_baseline", {}).items():
+                if p in files and files[p] != e:
+                    ex.add(violation("C03", "neighbours_unaffected", "%s: %s" % (p, "; ".join(O.diff_reports(files[p], e))), idx))
+            ex.probe("c03_world_scans")
 
     # ---- C06: every entry equals the reference table ------------------------
     if wl == "C06":
